@@ -23,21 +23,21 @@ import (
 // flag to false once the defect is fixed in /repo or listed in
 // known_findings.jsonl.
 const (
-	// every load of a CSV/TSV/LTSV/FIXED file with >= 1 record: the consumer
+	// every load of a CSV/TSV/LTSV/FIXED file with >= 2 records: the consumer
 	// goroutine of readRecordSet reads `pos` while the producer writes it
-	// (load_view.go:1245 vs 1289); the JSONL loader has the same pattern
-	// (load_view.go:1386 vs 1456). While true, the eval / cancel / sessions
+	// (readRecordSet+36 vs +80); the JSONL loader has the same pattern
+	// (loadViewFromJsonLinesFile+47 vs +117). While true, the eval / cancel / sessions
 	// checks build every table as a temporary table instead of a file.
-	avoidKnownLoaderPosRace = true
-	// a FROM-subquery over a table marks the table's shared FileInfo as an inline table
-	// (load_view.go:405-412, the open "file  does not exist" defect); from then on every load of
-	// that table writes FileInfo.Path, and subqueries evaluated by several workers do that at the
-	// same time (load_view.go:411 vs 411). While true, statements with a FROM-subquery are moved to
-	// the end of their program.
-	avoidKnownSubqueryFileInfoWrite = true
+	avoidKnownLoaderPosRace = false
+	// a FROM-subquery over a table marked the table's shared FileInfo as an inline table (the
+	// "file  does not exist" defect); from then on every load of that table wrote FileInfo.Path, and
+	// subqueries evaluated by several workers did that at the same time (loadView, `Path = ""`).
+	// Fixed in /repo by b1128aa (the subquery branch copies the FileInfo): false. While true,
+	// statements with a FROM-subquery are moved to the end of their program.
+	avoidKnownSubqueryFileInfoWrite = false
 	// two sessions in one process share one unsynchronised math/rand.Rand for the names of read-lock
 	// files (lib/file/functions.go:32). While true, the sessions check never reads files.
-	avoidKnownSharedRandInLockNames = true
+	avoidKnownSharedRandInLockNames = false
 )
 
 var colNames = []string{"id", "k", "g", "v", "s", "d", "j"}
